@@ -1361,6 +1361,16 @@ def _compile_op(r, spec, enabled, sm_run, prev: list | None = None) -> dict:
     nf = "native" in enabled and r.random() < (0.15 if spec["target"] else 0.3)
     allow_sm = sm_run and r.random() < 0.5 and not _has_recursive_abi(spec)
     o = {"op": "compile", "p": spec["id"], "opts": gen_opts(r, spec, native_fail=nf, allow_sm=allow_sm), "obs": bool(spec["target"])}
+    if prev and not nf and r.random() < 0.3:
+        # the other side of a version boundary at which lowering changes (assert 3, callsub 4,
+        # extract/cover 5, frame pointers 8, default slot optimisation 9) relative to an earlier compile
+        pv = r.choice(prev)["opts"].get("version", 0)
+        cands = [b - 1 if pv >= b else b for b in (3, 4, 5, 8, 9)]
+        cands = [v for v in cands if max(spec.get("minv", 2), 2) <= v <= 10]
+        if cands:
+            o["opts"]["version"] = r.choice(cands)
+            if o["opts"]["version"] < 8 and (o["opts"].get("opt") or {}).get("fp"):
+                o["opts"]["opt"]["fp"] = None
     if (o["opts"].get("sm") or {}).get("pcs"):
         o["algod"] = {"status": "ok", "compile": "ok"}
     return o
